@@ -454,6 +454,8 @@ func run(cf cfg, path []int, depth int, dir string) (string, bool) {
 					fail("newtx", err.Error())
 					break
 				}
+				// the expiry is fixed before the commit: virtual time may advance while an eager commit waits for a bulk-preparation timer
+				expAt := vsched.Now().Add(90 * time.Minute)
 				for _, w := range ws {
 					var md *store.KVMetadata
 					if w.del || w.nonIdx || w.exp {
@@ -465,7 +467,7 @@ func run(cf cfg, path []int, depth int, dir string) (string, bool) {
 							md.AsNonIndexable(true)
 						}
 						if w.exp {
-							md.ExpiresAt(vsched.Now().Add(90 * time.Minute))
+							md.ExpiresAt(expAt)
 						}
 					}
 					if err := tx.Set([]byte(w.k), md, []byte(w.v)); err != nil {
@@ -489,7 +491,7 @@ func run(cf cfg, path []int, depth int, dir string) (string, bool) {
 					}
 					v := ver{tx: h.ID, val: w.v, deleted: w.del}
 					if w.exp {
-						v.exp = vsched.Now().Add(90 * time.Minute)
+						v.exp = expAt
 					}
 					m.m[w.k] = append(m.m[w.k], v)
 				}
